@@ -449,7 +449,7 @@ def _run(ctx, tlefile, tmpdir):
     pkg_path = os.path.join(common.REPO, "pyorbital", "etc", "platforms.txt")
     with open(pkg_path, newline="") as f:
         pkg_text = f.read()
-    n_custom = ctx.n(3, 12)
+    n_custom = ctx.n(4, 16)
     pkg_spec = spec_platforms(pkg_text)
     reg_pkg = sorted(pkg_spec.items())
     custom_texts = [gen_platforms_text(rng, [(k.title() if rng.random() < 0.5 else k, v) for k, v in reg_pkg]) for _ in range(n_custom)]
@@ -504,7 +504,7 @@ def _run(ctx, tlefile, tmpdir):
             case["raw"] = True
         jobs.append((pf, case, lines, {"entries": ents, "cls": cls, "oracle": oracle}))
 
-    n_coll = ctx.n(36, 260)
+    n_coll = ctx.n(100, 700)
     for ci in range(n_coll):
         pf = 0 if ci % 3 else rng.randint(1, n_custom)            # a third of the collections under a custom platforms file
         reg = sorted(spec_platforms(plat_texts[pf]).items())
@@ -519,7 +519,7 @@ def _run(ctx, tlefile, tmpdir):
             for kind in kinds:
                 add_single(pf, kind, entries, text, cls, req)
     # regression strata of the two defects fixed in /repo (b90fb81, cb80eea): unregistered name of a LATER entry on a stream
-    for _ in range(ctx.n(4, 20)):
+    for _ in range(ctx.n(10, 50)):
         entries, text = gen_collection(rng, reg_pkg, size=rng.randint(2, 8), style="named")
         later = [e["name"].strip() for e in entries[1:] if e["name"].strip().upper() not in pkg_spec and e["name"].strip() != entries[0]["name"].strip()]
         if later:
@@ -530,7 +530,7 @@ def _run(ctx, tlefile, tmpdir):
         entries, text = gen_collection(rng, [("SHORTY", "33591"), ("NOAA-19", "33591")], size=rng.randint(1, 6))
         for req in ("shorty", "noaa-19"):
             add_single(sh, rng.choice(["path", "stream"]), entries, text, "short-id", req, oracle=False)
-    for _ in range(ctx.n(30, 200)):
+    for _ in range(ctx.n(80, 500)):
         text, req = gen_malformed(rng, reg_pkg)
         if representable(req):
             add_single(0, rng.choice(["path", "stream"]), [], text, "malformed", req, raw=True, oracle=False)
@@ -543,7 +543,7 @@ def _run(ctx, tlefile, tmpdir):
                 case = {"kind": "net", "data": [t for _, t in colls], "requested": req}
                 jobs.append((0, case, [lines_binary(t) for _, t in colls], {"entries": allents, "cls": cls, "oracle": True}))
     # bulk reads
-    for bi in range(ctx.n(8, 40)):
+    for bi in range(ctx.n(16, 80)):
         pf = 0 if bi % 2 else rng.randint(1, n_custom)
         reg = sorted(spec_platforms(plat_texts[pf]).items())
         nfiles = rng.randint(1, 3)
